@@ -9,6 +9,6 @@ CONSTANTS
   MaxExch = 2
   Weak = {}
 INVARIANTS TypeOK VerifiedRule NoCarryOver
-PROPERTIES ErrorRule GateRule RefusalChangesNothing OnlyVerifiedGetEvents
+PROPERTIES ErrorRule FinishAnswersStart GateRule RefusalChangesNothing OnlyVerifiedGetEvents
 VIEW View
 CHECK_DEADLOCK FALSE
